@@ -300,6 +300,12 @@ _amend('C18', 'floor / prev / roundPowerOfTwo are analysed for 8-, 16-, 32- and 
 _amend('C19', 'A division by zero on the evaluated path of an HSV round-trip case is refuted when the derived terms, evaluated at the sample colour of the case, do not return it.')
 _amend('C01', 'gtx/component_wise: compAdd / compMul as polynomial identities, compMin / compMax / fcompMin / fcompMax as the left fold of the scalar overload, compNormalize / compScale per lane against their definitions (rules/c01_cw.py).')
 _amend('C04', 'ext/quaternion_exponential: exp against its definition (identity for a vanishing vector part, no uninitialised component), the threshold of the real-number shortcut of pow <= epsilon^2, sqrt == pow(q, 1/2).')
+_amend('C04', 'log(qua) against its definition on all four arms; quatLookAt is quatLookAtRH (quatLookAtLH under GLM_FORCE_LEFT_HANDED), quatLookAtLH(d, up) == quatLookAtRH(-d, up), quatLookAtRH == quat_cast of the frame (right, cross(-d, right), -d).')
+_amend('C16', 'The square aliases make_mat2 / make_mat3 / make_mat4 copy lane for lane; make_vecN(vecM) keeps the leading min(N, M) components in order (padding values are not judged).')
+_amend('C02', 'A float quotient (mat / scalar, scalar / mat, mat /= scalar) must be the single division of the two lanes: an algebraically equal form with a second rounding (multiplication by the reciprocal) is refuted with a bit pattern at which the two derived terms differ; integer lanes that are not the division term are refuted by a bit-pattern witness.')
+_amend('C17', 'Swizzle proxies as operands (operator form): scalar - / * swizzle and swizzle + - * / swizzle / vector in both operand orders give lane j = lhs_j OP rhs_j as an exact term.')
+_amend('C18', 'Undecided multiple paths of unsigned 32- / 64-bit types are refuted by exact evaluation of the derived term at corners that include multiples above half the range (modular arithmetic: every input with a representable answer is in the domain).')
+_amend('C15', 'The floor-based portable spellings of trunc and round (the pre-C++11 fallbacks) are read as the functions they are (exact identities), so those configuration pairs are proved rather than left undecided; the bit-pattern witness tries the half-way boundary inputs (predecessor of one half, odd integers of the last binade, signed zero).')
 _amend('C05', 'A findLSB / findMSB shape that does not normalise is evaluated (derived term) at members of the shape and refuted on a wrong value.')
 _amend('C06', 'Templated packHalf<L> / unpackHalf<L> lane plumbing; packRGBM / unpackRGBM against their definition (m = ceil(clamp(max(c) / 6, 0, 1) * 255) / 255, colour lanes (c / 6) / m, decoder rgb * m * 6).')
 _amend('C08', 'infinitePerspectiveLH / RH are part of the dispatch rule (a declared but undefined API function is an existence violation); tweakedInfinitePerspective == infinitePerspectiveRH_NO + ep * E (default ep = epsilon<T>()); pickMatrix == translate * scale of the pick region under its delta > 0 guard; float and double in every tier.')
